@@ -1,6 +1,8 @@
 import McpModel.Base.Proto
 import McpModel.Sessions.Replay
 import McpModel.Sessions.Monitor
+import McpModel.Sessions.Ephemeral
+import McpModel.Sessions.Gate
 /-!
 Driver for E7 (C11): the **string layer** only.
 
@@ -16,14 +18,18 @@ monitor is `monStep` / `monEnd` (Monitor.lean; bridged to the model in Bridge.le
 text in Sound.lean).
 
 Harness operations (see go/harness/mcp/zz_verif_sessions_test.go):
-`reset <stateful|stateless> <timeout ms> [es|nes]` (`es`: the handler has an `EventStore`, a fault-injecting
-wrapper of the in-memory store) · `fault <flags>` (from now on the event-store methods named by the flags
+`reset <stateful|stateless|legacy|noids> <timeout ms> [es|nes]` (`legacy`: a stateless endpoint under
+`MCPGODEBUG allowsessionsinstateless=1`, `noids`: a stateful endpoint whose `GetSessionID` returns "" — both are
+replayed and judged by Ephemeral.lean; `es`: the handler has an `EventStore`, a fault-injecting
+wrapper of the in-memory store) · a further `json` sets `StreamableHTTPOptions.JSONResponse`
+(the session layer does not depend on it: the model has no such field) · `fault <flags>` (from now on the event-store methods named by the flags
 fail: `c` SessionClosed, `o` Open of the standalone stream = `Transport.Connect`, `O` Open of a request's
 stream, `a` Append, `r` After; `-` none) · `post <ref> <user> <init|badinit|ping|notif|slow>` ·
 `postx <user> <kind>` (a creating POST during which the server closes the new session between `Connect`
 and the publication in `h.sessions` — F20) ·
 `release <slot>` · `abandon <slot>` (the client of that POST goes away, its handler keeps running) ·
-`get|delete|other <ref> <user>` · `tick <ms>` · `close <ref>` · `postb <ref> <user>` (the HEADERS of a POST
+`get|delete|other <ref> <user>` · `bad <ctype|accept|getaccept|noserver|origin|host> <ref> <user>` (a request the handler
+refuses before it reads the session id: Gate.lean) · `tick <ms>` · `close <ref>` · `postb <ref> <user>` (the HEADERS of a POST
 carrying a `ping` arrive, its body follows in pieces; the request is named `u<n>`, n = the harness's count of
 asynchronous requests) · `body <n> more|end` (a piece / the last piece of that body arrives) · `end`;
 `ref` = `-` | `s<k>` (k-th minted id) | `x<n>` (never minted); `user` = `anon|ue|u<n>`.
@@ -350,30 +356,108 @@ def parseEnd (impl : String) : Option EndObs :=
     if o.render == impl then some o else none
   | _ => none
 
+/-! ## the configurations without kept sessions (Ephemeral.lean) -/
+
+def Eph.EClause.text (m : Eph.Mode) : Eph.EClause → String
+  | .methodAnswered v st =>
+    match m with
+    | .legacy => s!"C11:stateless_no_ids_405: {v.text} on a stateless endpoint (allowsessionsinstateless=1) answered {st.render}"
+    | .noIds => s!"C11:{v.text} method answered {st.render}"
+  | .legacyDelete hasId st => s!"C11:stateless DELETE (allowsessionsinstateless=1) {if hasId then "with" else "without"} a session id answered {st.render}"
+  | .unknownHonoured v st => s!"C11:id_addresses_one_session: unknown session id honoured ({v.text} answered {st.render})"
+  | .missingId v st => s!"C11:{v.text} without a session id answered {st.render}"
+  | .postAnswered st => s!"C11:POST that a temporary session must serve answered {st.render}"
+  | .issued => "C11:id_minted_only_on_creating_post: Mcp-Session-Id issued although GetSessionID returns no id"
+  | .hdrNotInitialize => "C11:id_minted_only_on_creating_post: Mcp-Session-Id on a response that created no session"
+  | .hdrDifferent => "C11:id_minted_only_on_creating_post: response names a different session"
+  | .hdrReused => "C11:id_addresses_one_session: minted id already names a session"
+  | .keeps =>
+    match m with
+    | .legacy => "C11:stateless_no_ids_405: stateless endpoint keeps a session"
+    | .noIds => "C11:dead_after_removal: temporary session kept in the handler's table"
+  | .notClosed => "C11:dead_after_removal: temporary session not closed and forgotten when its POST ended"
+  | .sessionWithId => "C11:id_minted_only_on_creating_post: server session with an id although GetSessionID returns no id"
+  | .rejectedReached => "C11:owner_binding: handler invoked for a rejected request"
+  | .misrouted => "C11:id_addresses_one_session: message routed to another session"
+  | .timerLeft => "C05+C11:closed_session_timer_never_rearmed: an idle timer is armed on an endpoint that keeps no session"
+
+/-- `Server.Sessions()` as the harness prints it: sorted by length, then alphabetically. -/
+def sortSrv (l : List Name) : List Name :=
+  l.mergeSort (fun a b => a.render.length < b.render.length || (a.render.length == b.render.length && a.render ≤ b.render))
+
+/-! ## requests refused before the session layer (Gate.lean) -/
+
+def parseWhy (s : String) : Option Why :=
+  match s with
+  | "ctype" => some .ctype
+  | "accept" => some .accept
+  | "getaccept" => some .getAccept
+  | "noserver" => some .noServer
+  | "origin" => some .origin
+  | "host" => some .host
+  | _ => none
+
+def Why.text : Why → String
+  | .ctype => "POST with a Content-Type other than application/json"
+  | .accept => "POST whose Accept lacks application/json or text/event-stream"
+  | .getAccept => "GET whose Accept lacks text/event-stream"
+  | .noServer => "POST without a session id for which getServer returns nil"
+  | .origin => "cross-site POST under CrossOriginProtection"
+  | .host => "request on a loopback address with a foreign Host"
+
+def GateClause.text : GateClause → String
+  | .answered w st => s!"C11:request that must be refused ({w.text}) answered {st.render}"
+  | .effect c => s!"{c.text} (after a request that is refused before the session layer and must have no effect)"
+
 /-! ## the engine -/
 
 structure DState where
   r : RState := .init { stateless := false, timeout := 100, publishChecks := Generated.Sessions.publishChecksClosed }
   mon : Mon := {}
+  eph : Option (Eph.State × Eph.MState) := none     -- `reset legacy|noids`: the case runs on Ephemeral.lean
 
 def engine : Engine DState where
   init := {}
   step d toks impl :=
     match toks with
+    | "reset" :: "legacy" :: _ => ({ eph := some ({ mode := .legacy }, { mode := .legacy }) }, { model := "ok" })
+    | "reset" :: "noids" :: _ => ({ eph := some ({ mode := .noIds }, { mode := .noIds }) }, { model := "ok" })
     | "reset" :: mode :: ms :: rest =>
       let cfg : Cfg := { stateless := mode == "stateless", timeout := ms.toNat?.getD 0,
                          publishChecks := Generated.Sessions.publishChecksClosed,
-                         eventStore := rest == ["es"] }
+                         eventStore := rest.head? == some "es" }
       ({ r := .init cfg }, { model := "ok" })
     | ["reset"] => ({}, { model := "ok" })
     | ["end"] =>
+      if d.eph.isSome then
+        let want : EndObs := { stuck := 0, map := 0, srv := 0, timers := 0 }
+        (d, { model := want.render, violated := (monEnd {} (parseEnd impl)).map EndClause.text })
+      else
       -- (the unrepaired publication of F20 leaves its dead sessions behind: the model follows it)
       let want : EndObs := { stuck := 0, map := endLeft d.r, srv := 0, timers := 0 }
       (d, { model := want.render, violated := (monEnd d.mon (parseEnd impl)).map EndClause.text })
+    | ["bad", why, _, _] =>
+      -- a request that is refused before the session layer: for model and monitor a `tick 0` plus its status
+      match parseWhy why, d.eph with
+      | some w, none =>
+        let (mon', v) := gateJudge d.r.st.cfg d.mon w (parseObs impl)
+        match gateModel d.r w with
+        | none => ({ d with mon := mon' }, { model := "bad-op", violated := v.map GateClause.text })
+        | some (r, mo) => ({ d with r := r, mon := mon' }, { model := mo.render, violated := v.map GateClause.text })
+      | _, _ => (d, { model := "bad-op" })
     | _ =>
       match parseOp toks with
       | none => (d, { model := "bad-op" })
       | some op =>
+        if let some (es, em) := d.eph then
+          let o := parseObs impl
+          let (v, em') := Eph.judge em op o
+          match Eph.modelOp es op with
+          | none => ({ d with eph := some (es, em') }, { model := "bad-op", violated := v.map (Eph.EClause.text em.mode) })
+          | some (es', mo) =>
+            ({ d with eph := some (es', em') },
+             { model := ({ mo with srv := sortSrv mo.srv } : Obs).render, violated := v.map (Eph.EClause.text em.mode) })
+        else
         -- (a POST with a piecewise body is not modelled on a stateless endpoint: the harness refuses it too)
         if d.r.st.cfg.stateless && (match op with | .postb _ _ | .body _ _ => true | _ => false) then (d, { model := "bad-op" }) else
         let mr := monStep d.r.st.cfg d.mon op (parseObs impl)
